@@ -135,6 +135,14 @@ def ident(v):
 def _fail(tag, v):
     raise ValueError("boom in " + tag)
 
+class DomainError(Exception):
+    pass
+
+@xn
+def chained(v):
+    # an exception raised with an explicit cause of its own: the call's exception is still caused by THIS exception
+    raise DomainError("boom in chained") from KeyError("inner detail")
+
 failing_partial = xn(functools.partial(_fail, "partial"))
 failing_lambda = xn(lambda v: 1 // 0)
 model = Model()
@@ -157,6 +165,7 @@ FORMS = [
     ("a[5]", "TypeError"),                       # (int is not subscriptable) - indexing is resolved when the consumer runs
     ("failing_partial(a)", "ValueError"),        # call form of the decorator on objects that cannot take the @ syntax
     ("failing_lambda(a)", "ZeroDivisionError"),
+    ("chained(a)", "DomainError"),               # raise ... from ...: the node's own exception is the cause, not its cause
 ]
 
 
